@@ -43,7 +43,7 @@ ASSUMPTIONS = [
 REQUIRED = ["transform_calls", "rotations_checked", "scales_checked", "translations_checked",
             "centre_root_far", "centre_origin", "root_not_at_position_0", "instance_reused",
             "inverse_checked", "isometry_checked", "builders_checked", "composed_checked",
-            "classmethod_checked", "translate_origin_checked", "tap_apply"]
+            "classmethod_checked", "translate_origin_checked", "singular_scalings", "tap_apply"]
 FLOOR = {"quick": 1500, "thorough": 30000}
 SHARDS = {"quick": 8, "thorough": 16}
 TOL = 3e-5
@@ -235,6 +235,9 @@ def _exec(ctx, case):
         # inverse (built by the harness) restores the original coordinates
         if t["kind"] == "affine" and eff != "origin" and np.abs(np.array(t["m"])[:3, 3]).max() > 0:
             return  # the root itself moves: "inverse about the (moved) root" is another map
+        if t["kind"] == "scale" and 0.0 in t["s"]:
+            ctx.count("singular_scalings")
+            return  # no inverse
         inv = make(inverse_of(t), center)
         back = inv(outs[0])
         ctx.count("inverse_checked")
@@ -349,6 +352,10 @@ def draw_transform(rng):
             s[:] = s[0]
         if rng.random() < 0.15:
             s[int(rng.integers(0, 3))] = 1.0
+        if rng.random() < 0.12:   # flatten along one axis: a legitimate (singular) scaling
+            s[int(rng.integers(0, 3))] = 0.0
+        if rng.random() < 0.12:   # mirror
+            s[int(rng.integers(0, 3))] *= -1.0
         return {"kind": k, "s": s.round(4).tolist()}
     if k == "rotate":
         n = unit(rng) if rng.random() < 0.75 else [[1., 0, 0], [0, 1., 0], [0, 0, 1.],
